@@ -83,7 +83,7 @@ def evaluate_with_simplex_interpolation(inputs, kernel, units, lattice_sizes,
   # parameters) when moving across each dimension.
   # E.g. for 2x2x2, strides are [4, 2, 1].
   strides = tf.constant(
-      np.cumprod([1] + lattice_sizes[::-1][:-1])[::-1], tf.int32)
+      np.cumprod([1] + list(lattice_sizes)[::-1][:-1])[::-1], tf.int32)
 
   if not all_size_2:
     # Find offset (into flattened parameters) for the lower corner of the
@@ -1083,9 +1083,9 @@ def finalize_constraints(weights,
     return weights
   units = weights.shape[1]
   if units > 1:
-    lattice_sizes = lattice_sizes + [int(units)]
+    lattice_sizes = list(lattice_sizes) + [int(units)]
     if monotonicities:
-      monotonicities = monotonicities + [0]
+      monotonicities = list(monotonicities) + [0]
 
   weights = tf.reshape(weights, shape=lattice_sizes)
 
@@ -1916,9 +1916,9 @@ def project_by_dykstra(weights,
   if joint_unimodalities is None:
     joint_unimodalities = []
   if units > 1:
-    lattice_sizes = lattice_sizes + [int(units)]
-    monotonicities = monotonicities + [0]
-    unimodalities = unimodalities + [0]
+    lattice_sizes = list(lattice_sizes) + [int(units)]
+    monotonicities = list(monotonicities) + [0]
+    unimodalities = list(unimodalities) + [0]
 
   weights = tf.reshape(weights, lattice_sizes)
 
@@ -2123,12 +2123,12 @@ def laplacian_regularizer(weights, lattice_sizes, l1=0.0, l2=0.0):
     l2 = [l2] * rank
 
   if weights.shape[1] > 1:
-    lattice_sizes = lattice_sizes + [int(weights.shape[1])]
+    lattice_sizes = list(lattice_sizes) + [int(weights.shape[1])]
     rank += 1
     if l1:
-      l1 = l1 + [0.0]
+      l1 = list(l1) + [0.0]
     if l2:
-      l2 = l2 + [0.0]
+      l2 = list(l2) + [0.0]
   weights = tf.reshape(weights, shape=lattice_sizes)
 
   result = tf.constant(0.0, shape=[], dtype=weights.dtype)
@@ -2202,12 +2202,12 @@ def torsion_regularizer(weights, lattice_sizes, l1=0.0, l2=0.0):
     l2 = [math.sqrt(l2)] * rank
 
   if weights.shape[1] > 1:
-    lattice_sizes = lattice_sizes + [int(weights.shape[1])]
+    lattice_sizes = list(lattice_sizes) + [int(weights.shape[1])]
     rank += 1
     if l1:
-      l1 = l1 + [0.0]
+      l1 = list(l1) + [0.0]
     if l2:
-      l2 = l2 + [0.0]
+      l2 = list(l2) + [0.0]
   weights = tf.reshape(weights, shape=lattice_sizes)
 
   result = tf.constant(0.0, shape=[], dtype=weights.dtype)
@@ -2557,9 +2557,9 @@ def assert_constraints(weights,
   del joint_unimodalities
 
   if weights.shape[1] > 1:
-    lattice_sizes = lattice_sizes + [int(weights.shape[1])]
+    lattice_sizes = list(lattice_sizes) + [int(weights.shape[1])]
     if monotonicities:
-      monotonicities = monotonicities + [0]
+      monotonicities = list(monotonicities) + [0]
   weights = tf.reshape(weights, shape=lattice_sizes)
   asserts = []
 
